@@ -18,7 +18,18 @@ def zero(t):
 
 def render(c, cast):
     S, T, pos = c["src"], c["dst"], c["pos"]
-    v = "s as %s" % T if cast else "s"
+    shape = c.get("shape", "var")
+    one = "1.0" if S.startswith("f") else "1"
+    e = {"var": "s", "div": "s / one", "mul": "s * one", "call": "same(s)"}[shape]
+    v = "(%s) as %s" % (e, T) if cast and shape != "var" else ("s as %s" % T if cast else e)
+    if shape != "var":          # the operand `one` and the identity function live at module level
+        pre = "fn same(x: %s) -> %s {\n    return x;\n}\n" % (S, S)
+        r = render(dict(c, shape="var"), cast)
+        r = r.replace("(s: %s" % S, "(s: %s, one: %s" % (S, S), 1)
+        # the converted expression is the only use of `s` after its declaration: rebuild from the plain rendering
+        plain = "s as %s" % T if cast else "s"
+        i = r.rindex(plain)
+        return r[:i].replace(HEAD, HEAD + pre, 1) + v + r[i + len(plain):]
     main = "fn main() { }\n"
     if pos == "let":
         body = "fn f(s: %s) {\n    let t: %s = %s;\n}\n" % (S, T, v)
@@ -112,7 +123,7 @@ def run(tier, seed, replay=None):
         if ctl["cls"] != "ACCEPT":
             n_void += 1          # position not expressible for this pair; counted, never blamed
             continue
-        nontrivial.add((c["src"], c["dst"], c["pos"]))
+        nontrivial.add((c["src"], c["dst"], c["pos"], c.get("shape", "var")))
         if cs["cls"] == "ACCEPT":
             n_acc += 1
             if not c["lossless"] and env.compile(c["_path"], typecheck_only=True)["cls"] == "ACCEPT":
@@ -133,7 +144,7 @@ def run(tier, seed, replay=None):
         "states": res["distinct"], "transitions": res["states"],
         "traces_validated_against_impl": len(results) - n_void,
         "evaluations": 2 * len(results), "distinct_nontrivial": len(nontrivial),
-        "rule": "TLC enumerates all 17x17 ordered type pairs x positions; a case is non-trivial when its "
+        "rule": "TLC enumerates all 17x17 ordered type pairs x positions x expression shapes (variable; in five positions also x / y, x * y, f(x)); a case is non-trivial when its "
                 "explicit-cast control compiles (so the position is expressible for the pair)",
         "exhaustive": True, "cases": len(results), "accepted_without_cast": n_acc,
         "lossless_but_cast_required": n_rej_lossless, "void_controls": n_void,
